@@ -49,18 +49,14 @@ def extract(repo):
     v_nosecret = int(const_value(msgs, "PROTOCOL_VERSION_NO_SECRET"))
 
     # ---- handler arms ----------------------------------------------------------------------
-    need(handler, r"if self\.protocol_version < PROTOCOL_VERSION_REVOKE \{ chan\.revoke_previous_holder_commitment\(commit_num\) \}",
-         "ValidateCommitmentTx(2): old protocol revokes inside validate", 2)
-    need(handler, r"if commit_num > 0 \{ Ok\(\(chan\.get_per_commitment_point\(commit_num \+ 1\)\?, None\)\) \} else \{ Ok\(\(chan\.activate_initial_commitment\(\)\?, None\)\) \}",
-         "ValidateCommitmentTx(2): new protocol point / activate", 2)
-    need(handler, r"Message::RevokeCommitmentTx\(m\) => \{ if self\.protocol_version < PROTOCOL_VERSION_REVOKE \{ return Err",
-         "RevokeCommitmentTx: version gate", 1)
-    need(handler, r"chan\.revoke_previous_holder_commitment\(commit_num \+ 1\)", "RevokeCommitmentTx: revoke(commit_num + 1)", 1)
+    # Round 9: the arms ValidateCommitmentTx(2), RevokeCommitmentTx, GetPerCommitmentPoint(2) are translated on every run
+    # (translate/fn_arms.py -> Gen/FnHandlerArms.lean) and proved equal to the model's handler composites
+    # (Props/C01Fn.lean, section HandlerArms).  Their shapes are therefore no longer pinned by regular expressions here: a
+    # change reaches the kernel as a broken `C01_fn_handle_*` theorem (and a harmless rewrite no longer aborts the
+    # regeneration).  Only the lag of GetPerCommitmentPoint is still read off as an exported fact.
     m = need(handler, r"if self\.protocol_version < PROTOCOL_VERSION_NO_SECRET && commitment_number >= (\d+) \{ Some\(base\.get_per_commitment_secret\(commitment_number - (\d+)\)\?\) \}",
              "GetPerCommitmentPoint: old protocol returns secret n-2", 1)[0]
-    if m.group(1) != m.group(2):
-        raise ExtractError("GetPerCommitmentPoint: lag mismatch")
-    getpoint_lag = int(m.group(1))
+    getpoint_lag = int(m.group(1))      # threshold `commitment_number >= lag`; the subtraction is in the generated arm
 
     # ---- channel.rs ------------------------------------------------------------------------
     stub = norm(body_after(channel_src, r"impl\s+ChannelBase\s+for\s+ChannelStub"))
